@@ -835,6 +835,10 @@ def camp_c12(rnd, tier):
             b.ith(o, rnd.choice(["iter", "into_iter"]), w, keep=1)
         b.ith(o, "iter", "n" * (n + 3) + "l" + "b" + "l")
         b.ith(o, "iter", "b" * (n + 3) + "l" + "n" + "l")
+        # the skipping calls nth(1), nth(3), nth_back(2) mixed with the plain ones
+        for _ in range(3):
+            w = "".join(rnd.choice("njkbBl") for _ in range(n // 2 + rnd.choice([0, 5, 20])))
+            b.ith(o, rnd.choice(["iter", "into_iter"]), w, keep=1)
         b.ith(o, "into_iter", "n" * (n + 2), keep=0)
     # forward iterators of bit vectors (with len), quad vectors, position iterators, DArray
     for n in list(range(0, maxn + 1)) + [63, 64, 65, 130, 511, 512, 513, 1024]:
@@ -867,6 +871,13 @@ def camp_c12(rnd, tier):
             b.ith(q, "iter", "n" * (n + 4))
             b.ith(q, "ref_into_iter", "n" * (n + 4))
             b.ith(q, "into_iter", "n" * (n + 4), keep=1)
+            b.ith(q, "iter", "".join(rnd.choice("njkl") for _ in range(n // 2 + 4)))
+            b.ith(q, "into_iter", "".join(rnd.choice("njk") for _ in range(n // 2 + 4)), keep=1)
+        for o in (bv, bvm, da):
+            b.ith(o, "iter", "".join(rnd.choice("njkl") for _ in range(n // 2 + 4)))
+            b.ith(o, "ones", "".join(rnd.choice("njk") for _ in range(n // 3 + 4)))
+            b.ith(o, "zeros", "".join(rnd.choice("njk") for _ in range(n // 3 + 4)))
+        b.ith(bv, "into_iter", "".join(rnd.choice("njkl") for _ in range(n // 2 + 4)), keep=1)
     return b
 
 
@@ -892,12 +903,15 @@ def int_values(rnd, ty, k):
 
 def qv_observe(b, o, n, rnd):
     b.meta(o)
-    pos = position_args(n, rnd=rnd, k=10, huge=(-1, -2))
+    pos = position_args(n, rnd=rnd, k=10, huge=(-1, -2, -4, -5))
     if n <= 300:
-        pos = clip_args(list(range(0, n + 3)) + [-1, -2])
+        pos = clip_args(list(range(0, n + 3)) + [-1, -2, -4, -5])
     b.qg(o, "get", [], pos)
     b.ith(o, "iter", "n" * min(n + 3, 600))
     b.ith(o, "into_iter", "n" * min(n + 3, 600), keep=1)
+    # skipping iteration: nth(1) / nth(3) mixed with next; from element 128 on in longer vectors
+    b.ith(o, "iter", "".join(rnd.choice("njk") for _ in range(min(n // 2 + 3, 300))))
+    b.ith(o, "into_iter", "k" * min(n // 4 + 2, 200), keep=1)
 
 
 def camp_c13(rnd, tier):
@@ -991,6 +1005,8 @@ def camp_c10(rnd, tier):
             ty = next(types)
             shapes = huff_input_shapes(rnd, "quick", ty, binary=(kind == "HWT")) if "H" in kind[:2] else tree_input_shapes(rnd, "quick", ty)
             picked = rnd.sample(shapes, min(len(shapes), 6 if tier == "quick" else 14))
+            # the largest value of the carrier type is always among the alphabets (sigma + 1 overflows)
+            picked += [x for x in shapes if x[0] == "type_max" and x not in picked]
             if fam in ("QWT", "WT") and rep == 0:
                 # symbols wider than 32 / 64 bits: more than 16 / 32 quad levels
                 wide = [x for x in tree_input_shapes(rnd, "thorough", "u128") if x[0] in ("type_max", "pow2_33", "pow2_65", "pow2_100", "pow2_128")]
@@ -1108,6 +1124,13 @@ def all_kind_objects(b, rnd, tier, small=False):
         for name, s in rnd.sample(shapes, 3 if tier == "quick" else 8) + [("empty", Seqn.from_values([]))]:
             o = b.newt(kind, ty, rnd.choice(["new", "from_vec", "collect"]), s)
             out.append((o, "T", s, ty, kind))
+        if not huff:
+            # the carrier maximum of a 64-bit (or wider) type: derived fields that are recomputed
+            # rather than stored must not overflow
+            wty = rnd.choice(["u64", "usize", "u128"])
+            for name, s in [x for x in tree_input_shapes(rnd, "quick", wty) if x[0] == "type_max"]:
+                o = b.newt(kind, wty, rnd.choice(["new", "from_vec", "collect"]), s)
+                out.append((o, "T", s, wty, kind))
     for name, s in rnd.sample(quad_input_shapes(rnd, "quick"), 5) + [("empty", Seqn.from_values([]))]:
         for kind in ("QV", "RSQ256", "RSQ512"):
             o = b.newq(kind, "u16", "collect", s)
@@ -1118,6 +1141,13 @@ def all_kind_objects(b, rnd, tier, small=False):
     for name, s in rnd.sample(bit_input_shapes(rnd, "quick"), 5) + fixed:
         for kind, path in (("BV", "bools"), ("BVM", "bools"), ("RSN", "new"), ("RSW", "new"), ("DA0", "new"), ("DA1", "new")):
             o = b.newb(kind, path, s)
+            out.append((o, "B", s, "usize", kind))
+    # the select inventories of DArray: dense / sparse groups, partial last groups, spans at the 2^16 limits
+    dsh = darray_inputs(rnd, "quick")
+    must = [x for x in dsh if "partial" in x[0] or "span" in x[0]]
+    for name, s in rnd.sample(dsh, min(len(dsh), 3)) + must[:4]:
+        for kind in ("DA0", "DA1"):
+            o = b.newb(kind, "new", s)
             out.append((o, "B", s, "usize", kind))
     return out
 
@@ -1223,11 +1253,16 @@ def camp_c19(rnd, tier):
         for rep in range(1 if tier == "quick" else 3):
             ty = next(types)
             shapes = huff_input_shapes(rnd, "quick", ty, binary=(kind == "HWT")) if huff else tree_input_shapes(rnd, "quick", ty)
-            for name, s in rnd.sample(shapes, 5 if tier == "quick" else 12) + [("empty", Seqn.from_values([])), ("one", Seqn.from_values([min(tmax(ty), 2)]))]:
+            items = [(n2, s2, ty) for n2, s2 in rnd.sample(shapes, 5 if tier == "quick" else 12) + [("empty", Seqn.from_values([])), ("one", Seqn.from_values([min(tmax(ty), 2)]))]]
+            if not huff and rep == 0:
+                # symbols wider than 64 bits: every construction path must keep all the bits
+                wide = [x for x in tree_input_shapes(rnd, "thorough", "u128") if x[0] in ("type_max", "pow2_65", "pow2_100", "pow2_128")]
+                items += [(n2, s2, "u128") for (n2, s2) in rnd.sample(wide, 1 if tier == "quick" else 3)]
+            for name, s, ty in items:
                 b.reset()
-                objs = [b.newt(kind, ty, p, s) for p in ("new", "from_vec", "collect")]
-                for i in range(3):
-                    for j in range(i + 1, 3):
+                objs = [b.newt(kind, ty, p, s) for p in ("new", "from_vec", "collect", "collect_filter")]
+                for i in range(len(objs)):
+                    for j in range(i + 1, len(objs)):
                         b.eq(objs[i], objs[j])
                         rel_all(b, objs[i], objs[j], "path", "T", s, ty, kind, rnd)
                 c = b.conv(objs[0], "clone")
@@ -1270,7 +1305,8 @@ def camp_c19(rnd, tier):
                 d = b.newq(kind, "u8", "new", Seqn.from_values(v2))
                 b.eq(objs[0], d)
     # bit structures: From<BitVector> / new; bool- and position-based constructors
-    for name, s in rnd.sample(bit_input_shapes(rnd, "quick"), 6 if tier == "quick" else 12):
+    dsh = darray_inputs(rnd, "quick")
+    for name, s in rnd.sample(bit_input_shapes(rnd, "quick"), 6 if tier == "quick" else 12) + rnd.sample(dsh, 2 if tier == "quick" else 6):
         vals = s.values()
         ends_with_one = bool(vals) and vals[-1] == 1
         for kind, paths in (("RSN", ["new", "from"]), ("RSW", ["new", "from"]), ("DA0", ["new", "bools", "positions"]),
@@ -1446,6 +1482,22 @@ def runs_profile(rnd, alphabet, weights):
 def space_tree_inputs(rnd, tier, ty, huff):
     T = tmax(ty) if not huff else min(tmax(ty), 60000)
     out = [("empty", Seqn.from_values([])), ("one", Seqn.from_values([min(T, 5)]))]
+    if not huff and T >= (1 << 32):
+        # largest symbols whose bit length is not what a floating-point logarithm says (2^54 - 1
+        # rounds to 2^54), and the widest ones: the number of levels is ceil(bitlen / 2) exactly
+        cands = [(1 << 32) - 1, 1 << 32, (1 << 53) + 1, (1 << 54) - 1, (1 << 56) - 1, (1 << 56) - 4, (1 << 62) - 1, (1 << 63) + 5, T]
+        if T >= (1 << 100):
+            cands += [(1 << 64) - 1, 1 << 64, (1 << 100) - 1, (1 << 126) - 1]
+        for mx in [c for c in ((1 << 54) - 1, (1 << 56) - 1) if c <= T] + rnd.sample([c for c in cands if c <= T], 2 if tier == "quick" else 6):
+            alph = sorted(set([0, 1, mx, mx // 2, mx // 3, 77]))
+            out.append(("wide_m%d" % mx, Seqn.from_values(rand_seq(rnd, 20000, alph) + [mx])))
+    if huff and tmax(ty) >= (1 << 20):
+        # symbol values above 2^16 and 2^17 with very different frequencies (the code length of a
+        # symbol must not depend on its numeric value); the code table is indexed by symbol value
+        base = rnd.choice([1 << 16, (1 << 17) + 5, 200000])
+        alph = [3, 9, base, base + 1, base + 70000, 1000, 50000, base + 12345]
+        rnd.shuffle(alph)
+        out.append(("highsyms", runs_profile(rnd, alph, [max(1, int(120000 * 0.45 ** i)) for i in range(len(alph))])))
     for n in ([1000, 20000] if tier == "quick" else [10, 1000, 20000, 100000]):
         for mx in rnd.sample([1, 3, 4, 15, 16, 255, 256, 1000, 65535], 3 if tier == "quick" else 6):
             mx = min(mx, T)
@@ -1480,8 +1532,13 @@ def camp_space(rnd, tier, which):
     for kind in kinds:
         huff = kind.startswith("H")
         ty = next(types)
-        for name, s in space_tree_inputs(rnd, tier, ty, huff):
-            for path in (["new", "from_vec", "collect"] if ((tier == "thorough" and len(s) < 1200000) or len(s) <= 20001) else [next(paths)]):
+        items = [(ty, name, s) for name, s in space_tree_inputs(rnd, tier, ty, huff)]
+        # always one wide carrier as well (only its wide-symbol inputs)
+        wty = rnd.choice(["u64", "usize", "u128"] if not huff else ["u32", "u64", "u128"])
+        have = set(name for _, name, _ in items)
+        items += [(wty, name, s) for name, s in space_tree_inputs(rnd, tier, wty, huff) if name.startswith(("wide_", "highsyms")) and name not in have]
+        for ty, name, s in items:
+            for path in (["new", "from_vec", "collect", "collect_filter"] if ((tier == "thorough" and len(s) < 1200000) or len(s) <= 20001) else [next(paths)]):
                 b.reset()
                 o = b.newt(kind, ty, path, s, nv=1 if len(s) > 500000 else 0)
                 b.space(o)
@@ -1491,7 +1548,7 @@ def camp_space(rnd, tier, which):
             bits = Seqn.from_runs([([0, 1, 1, 0, 1], n // 5), ([0], n % 5)])
             b.reset()
             for kind in ("RSQ256", "RSQ512"):
-                for path, ty in (("new", "u8"), ("from_qv", "u64"), ("collect", "i32")):
+                for path, ty in (("new", "u8"), ("from_qv", "u64"), ("collect", "i32"), ("collect_filter", "u16")):
                     o = b.newq(kind, ty, path, q)
                     b.space(o)
             for path in ("new", "from"):
@@ -1508,8 +1565,9 @@ def camp_space(rnd, tier, which):
                         y = b.conv(x, m, keep=1)
                         b.space(y)
             if which == "all":
-                o = b.newq("QV", "u8", "collect", q)
-                b.space(o)
+                for path in ("collect", "collect_filter", "qb_extend_filter"):
+                    o = b.newq("QV", "u8", path, q)
+                    b.space(o)
                 for kind, path in (("RSN", "new"), ("DA0", "new"), ("DA1", "new"), ("DA1", "bools"), ("BV", "bools"), ("BV", "from_bvm"), ("BVM", "bools"), ("BVM", "with_zeros"),
                                    ("BVM", "with_capacity"), ("BVM", "bvm_new")):
                     o = b.newb(kind, path, bits, n=n)
@@ -1532,7 +1590,23 @@ def camp_c15(rnd, tier):
 
 
 def camp_c16(rnd, tier):
-    return camp_space(rnd, tier, "all")
+    b = camp_space(rnd, tier, "all")
+    # the std containers SpaceUsage is implemented for: flat, with spare capacity, and boxed slices
+    # of unequal elements (every element counts, not the first one times the length)
+    b.reset()
+    for n in (0, 1, 7, 1000, 100000):
+        for shape in ("vec_u64", "vec_u8_spare", "box_u32", "box_u128"):
+            b.spstd(shape, [n])
+    for shape in ("box_vec_u64", "box_box_u16", "box_bv"):
+        b.spstd(shape, [])
+        b.spstd(shape, [0])
+        b.spstd(shape, [5000])
+        b.spstd(shape, [20000, 10, 10, 10])
+        b.spstd(shape, [0, 0, 9000])
+        b.spstd(shape, [10, 30000, 10])
+        for _ in range(3 if tier == "quick" else 20):
+            b.spstd(shape, [rnd.choice([0, 1, 100, 5000, 70000]) for _ in range(rnd.choice([2, 3, 6]))])
+    return b
 
 
 # ------------------------------------------------------------------ C17 word-level utilities
@@ -1579,8 +1653,8 @@ def camp_c17(rnd, tier):
         lo = bin(w & ((1 << 64) - 1)).count("1")
         pc = bin(w).count("1")
         ks = sorted(set([0, 1, lo - 1, lo, lo + 1, pc - 1, pc, pc + 1, 127] + [rnd.randrange(128) for _ in range(4)]))
-        # the contract is stated for k below 128 occurrences; the upper half is searched with k - popcount(low)
-        b.util("select_in_word_u128", w=bits_of(w, 128), ks=[k for k in ks if 0 <= k < 128 and (k < pc or k - lo < 64)])
+        # every k below 128, including the ones for which the upper half is searched with k - popcount(low) >= 64
+        b.util("select_in_word_u128", w=bits_of(w, 128), ks=[k for k in sorted(set(ks + [64, 64 + lo, 100])) if 0 <= k < 128])
     # popcnt_wide
     for n in (0, 1, 2, 3, 4, 5, 6, 7, 8, 16):
         for _ in range(3 if tier == "quick" else 20):
